@@ -67,36 +67,83 @@ func init() {
 		})
 		fs.Raw("deleteCalls", "(some "+strconv.Itoa(del)+")", strconv.Itoa(del), whereDel)
 
-		// the pruning variant of the model, syntactically
-		src := string(f.Src)
+		// the pruning variant of the model, recognised by shape (names are free):
+		//  (a) the queue struct has a bool field F;
+		//  (b) enqueue returns bool and starts (after taking mu) with `if q.F { return false }`;
+		//  (c) remove, under mu, has `if len(q.callers) == 0 { q.F = true; <statement that reaches CompareAndDelete> }`;
+		//  (d) Lock loops on enqueue's result, fetching the queue again with getQueue;
+		//  (e) the only deleting call on the map is CompareAndDelete(key, q).
 		enq, rem, lk := f.Func("queue", "enqueue"), f.Func("queue", "remove"), f.Func("lock", "Lock")
+		flag := ""
+		ast.Inspect(f.AST, func(n ast.Node) bool {
+			ts, ok := n.(*ast.TypeSpec)
+			if !ok || ts.Name.Name != "queue" {
+				return true
+			}
+			if st, ok := ts.Type.(*ast.StructType); ok {
+				for _, fld := range st.Fields.List {
+					if f.Str(fld.Type) == "bool" && len(fld.Names) == 1 {
+						flag = fld.Names[0].Name
+					}
+				}
+			}
+			return false
+		})
 		marks := 0
-		if strings.Contains(src, "dead bool") || regexp.MustCompile(`\bdead\s+bool\b`).MatchString(src) {
+		if flag != "" {
 			marks++
 		}
-		if enq != nil && f.Contains(enq, "if q.dead { return false }") {
-			marks++
+		if enq != nil && flag != "" && enq.Type.Results != nil && len(enq.Type.Results.List) == 1 && f.Str(enq.Type.Results.List[0].Type) == "bool" {
+			b := c17Plain(f, enq.Body.List)
+			if len(b) > 2 && f.Str(b[2]) == "if q."+flag+" { return false }" {
+				marks++
+			}
 		}
-		if rem != nil && f.Contains(rem, "q.dead = true") && f.Contains(rem, "if len(q.callers) == 0 {") && f.Contains(rem, "CompareAndDelete(") {
-			marks++
-		}
-		if lk != nil {
-			hasLoop := false
-			ast.Inspect(lk, func(n ast.Node) bool {
-				if fl, ok := n.(*ast.ForStmt); ok && f.Contains(fl, "l.getQueue(key)") && f.Contains(fl, ".enqueue(c)") {
-					hasLoop = true
+		if rem != nil && flag != "" {
+			ast.Inspect(rem, func(n ast.Node) bool {
+				is, ok := n.(*ast.IfStmt)
+				if !ok || f.Str(is.Cond) != "len(q.callers) == 0" || is.Else != nil {
+					return true
+				}
+				b := c17Plain(f, is.Body.List)
+				if len(b) == 2 && f.Str(b[0]) == "q."+flag+" = true" {
+					// the second statement must lead to the map deletion: directly, or through a func field set in getQueue
+					direct := len(f.CallsSuffix(b[1], ".CompareAndDelete")) == 1
+					viaField := false
+					if es, ok := b[1].(*ast.ExprStmt); ok {
+						if c, ok := es.X.(*ast.CallExpr); ok && strings.HasPrefix(f.Str(c.Fun), "q.") && len(c.Args) == 1 && f.Str(c.Args[0]) == "q" {
+							if gq := f.Func("lock", "getQueue"); gq != nil && len(f.CallsSuffix(gq, "l.queues.CompareAndDelete")) == 1 {
+								viaField = true
+							}
+						}
+					}
+					if direct || viaField {
+						marks++
+					}
 				}
 				return true
 			})
-			if hasLoop {
-				marks++
+		}
+		if lk != nil {
+			ast.Inspect(lk, func(n ast.Node) bool {
+				if fl, ok := n.(*ast.ForStmt); ok && strings.Contains(f.Str(fl.Cond)+f.Str(fl.Body), ".enqueue(c)") &&
+					len(f.Calls(fl, "l.getQueue")) == 1 {
+					marks++
+				}
+				return true
+			})
+		}
+		cad := 0
+		for _, c := range f.CallsSuffix(f.AST, "l.queues.CompareAndDelete") {
+			if len(c.Args) == 2 && f.Str(c.Args[0]) == "key" && f.Str(c.Args[1]) == "q" {
+				cad++
 			}
 		}
 		pv := Unknown
 		switch {
-		case marks == 4 && del == 1:
+		case marks == 4 && del == 1 && cad == 1:
 			pv = Yes
-		case marks == 0:
+		case marks == 0 && flag == "":
 			pv = No
 		}
 		fs.Tri("pruneVariant", pv, c14LockPath)
